@@ -12,9 +12,9 @@
 (* a named disagreement is still rejected:                                                                      *)
 (*   attrsSorted          reference form, document with the attributes of every element in name order            *)
 (*   xmlnsXml:<form>      <form> on the document with xmlns:xml declared explicitly on the document element      *)
-(*   noDtdRef, noDtd:<form>  reference form / <form> on the document without its DOCTYPE                         *)
-(* (the fourth class, sourceTreeTargetDropsCdataText, is repaired: FormatterToSourceTree::cdata() adds the        *)
-(*  characters as text; its control experiment is gone, a recurrence is an unnamed tree disagreement)            *)
+(* (two more classes are repaired and their control experiments gone - a recurrence is an unnamed tree            *)
+(*  disagreement: doctypeNodeXercesDOM, the node test node() no longer accepts the DocumentType node of a         *)
+(*  DOM-backed source; sourceTreeTargetDropsCdataText, FormatterToSourceTree::cdata() adds the characters as text) *)
 EXTENDS Forms, TLC
 VARIABLES l, st, failed, done
 
@@ -38,8 +38,6 @@ KD(s, cfg, obs) ==
        THEN " KD=attrOrderXercesDOM"             \* the DOM-backed form behaves as the native form does on the name-ordered document
      ELSE IF cfg.src \in DomSrcs /\ Has(s, "xmlnsXml:" \o f) /\ Agree(m, Ctrl(s, "xmlnsXml:" \o f), s.ref)
        THEN " KD=xmlNamespaceNodeXercesDOM"      \* with xmlns:xml declared in the document the same form agrees
-     ELSE IF cfg.src \in DomSrcs /\ Has(s, "noDtdRef") /\ Has(s, "noDtd:" \o f) /\ Agree(m, Ctrl(s, "noDtdRef"), Ctrl(s, "noDtd:" \o f))
-       THEN " KD=doctypeNodeXercesDOM"           \* without the DOCTYPE the same form agrees with the reference form
      ELSE ""
 
 (* which part of Run(cfg, ..) failed *)
